@@ -193,6 +193,9 @@ def extract_item(e):
     end = match_brace(t, s)
     item = t[s:end]
     item = rewrite(item, e.get("keep_pub", False))
+    if e.get("generic_T"):
+        # the enclosing impl's type parameter T is instantiated by an opaque stand-in type
+        item = re.sub(r"\bT\b", e["generic_T"], item)
     for ins in e.get("insert", []):
         # annotation insertion (loop invariants / decreases): `after` must occur exactly once in the item
         if item.count(ins["after"]) != 1:
